@@ -104,6 +104,19 @@ class IVEval(object):
             r = a.sqrt()
             if r is None: raise Hazard('sqrt', e, a)
             return r
+        if isinstance(e, ast.Call) and isinstance(e.func, (ast.Name, ast.Attribute)) and not e.keywords:
+            fn = e.func.id if isinstance(e.func, ast.Name) else e.func.attr
+            if fn == 'log' and len(e.args) == 1:
+                a = self.ev(e.args[0])
+                if a.lo <= 0: raise Hazard('log', e, a)
+                # libm log is accurate to about an ulp: widen by four
+                lo, hi = math.log(a.lo), math.log(a.hi)
+                for _ in range(4): lo, hi = _dn(lo), _up(hi)
+                return IV(lo, hi)
+            if fn in ('max', 'min') and len(e.args) == 2:
+                a, b = self.ev(e.args[0]), self.ev(e.args[1])
+                f = max if fn == 'max' else min
+                return IV(f(a.lo, b.lo), f(a.hi, b.hi))
         raise AnalysisError('expression `%s` outside the interval evaluator' % ast.unparse(e))
 
     # -- exact range of a univariate quadratic ---------------------------------------------
